@@ -85,18 +85,25 @@ def check_grid(c):
         # ---- nearest node in the grid parameter; clamping ------------------------------------------------------------
         if n <= c.get('near_n', 40) and resolvable:
             qs, want = [], []
+            sp8 = 8 * np.spacing(max(abs(a), abs(b)))
             if kind == 'uni':
                 h = (b - a) / (n - 1)
                 for i in range(n - 1):
+                    xm = a + (i + 0.5) * h
                     for off, w in ((0.5 - 1e-6, i), (0.5 + 1e-6, i + 1), (0.25, i), (0.75, i + 1)):
-                        qs.append(a + (i + off) * h)
-                        want.append(w)
+                        q = a + (i + off) * h
+                        if abs(q - xm) > sp8:          # the query must be distinguishable from the cell midpoint in floating point
+                            qs.append(q)
+                            want.append(w)
             else:
                 for i in range(n - 1):
+                    xm = math.cos(math.pi * (i + 0.5) / (n - 1)) * (b - a) / 2 + (b + a) / 2
                     for off, w in ((0.5 - 1e-6, i), (0.5 + 1e-6, i + 1), (0.25, i), (0.75, i + 1)):
                         th = math.pi * (i + off) / (n - 1)
-                        qs.append(math.cos(th) * (b - a) / 2 + (b + a) / 2)
-                        want.append(w)
+                        q = math.cos(th) * (b - a) / 2 + (b + a) / 2
+                        if abs(q - xm) > sp8 * max(1.0, abs(xm - (a + b) / 2) / max(b - a, 1e-300) * 4):
+                            qs.append(q)
+                            want.append(w)
             # only queries whose distance to the midpoint is resolvable in x
             Q = np.array(qs).reshape(-1, 1)
             with warnings.catch_warnings():
